@@ -6,6 +6,7 @@
 //       fspec := POLY k c0 .. c(k-1)      Horner  c0 + x*(c1 + x*(...))
 //              | PWL  k x0..x(k-1) y0..y(k-1)   piecewise linear, constant outside
 //              | POW  k m c               k*math.Pow(x,m) - c
+//              | SHPOW k r p              k*(x-r)^p, p a decimal integer, by repeated multiplication
 //       dspec := NONE | fspec             (fn_dx; NONE = nil)
 //       floats as 16 hex digits, n decimal
 //     -> OK <x> <delta> E <ne> <eval points of fn..> D <nd> <eval points of fn_dx..>
@@ -74,6 +75,21 @@ func c18parseFn(t *toks) func(float64) float64 {
 		m := unhex(t.next())
 		c := unhex(t.next())
 		return func(x float64) float64 { return float64(k*math.Pow(x, m)) - c }
+	case "SHPOW":
+		k := unhex(t.next())
+		r := unhex(t.next())
+		p := t.int()
+		return func(x float64) float64 {
+			d := x - r
+			acc := 1.0
+			if p >= 1 {
+				acc = d
+				for i := 1; i < p; i++ {
+					acc = float64(acc * d)
+				}
+			}
+			return k * acc
+		}
 	default:
 		panic("bad function kind " + kind)
 	}
